@@ -63,9 +63,9 @@ theorem FragL_cons {env : SEnv} {ρ : List (String × Sym)} {s : Sexp} {r : List
   simpa using h
 mutual
 theorem agree (env : SEnv) (ρ : List (String × Sym)) : (s : Sexp) → FragS env ρ s = true → AgreeAt env ρ s
-  | .atom tok, _ => fun sc Γ lone hc hm u τ h =>
+  | .atom tok, _ => fun sc Γ lone hc hm _ u τ h =>
     ⟨Γ.mgr, (agree_atom env sc Γ lone hc tok u τ h).1, hm, (agree_atom env sc Γ lone hc tok u τ h).2⟩
-  | .str lit, hf => fun sc Γ lone _ hm u τ h =>
+  | .str lit, hf => fun sc Γ lone _ hm _ u τ h =>
     have hfine : Printer.strFine lit = true := by rw [FragS] at hf; exact hf
     ⟨Γ.mgr, (agree_str env sc Γ lone lit hfine u τ h).1, hm, (agree_str env sc Γ lone lit hfine u τ h).2⟩
   | .list [], hf => by rw [FragS] at hf; cases hf
@@ -98,7 +98,7 @@ theorem agree (env : SEnv) (ρ : List (String × Sym)) : (s : Sexp) → FragS en
         by_cases h3 : hd = "_"
         · subst h3
           simp only [beq_self_eq_true, if_true] at hf
-          intro sc Γ lone hc hm u τ h
+          intro sc Γ lone hc hm _ u τ h
           exact ⟨Γ.mgr, (agree_bvlit env sc Γ lone args hf u τ h).1, hm, (agree_bvlit env sc Γ lone args hf u τ h).2⟩
         · have e3 : (hd == "_") = false := by simpa using h3
           simp only [e3, Bool.false_eq_true, if_false] at hf
